@@ -778,7 +778,13 @@ func confirmCrash(self string, p *core.Property, tier string, seed uint64, work 
 	tmp := filepath.Join(work, fmt.Sprintf("crash.%d.json", ch.idx))
 	d, _ := json.Marshal(v)
 	_ = os.WriteFile(tmp, d, 0o644)
-	const cpu = 20
+	// CPU budget of the confirmation replay: 20 s; six times that under the race detector,
+	// where every memory access is instrumented (a heavy but finite case must not be read
+	// as a hang)
+	cpu := 20
+	if p.Race || os.Getenv("VERIF_RACE_SIDE") == "1" {
+		cpu = 120
+	}
 	// a crash that depends on the schedule (concurrent oracles) need not recur on
 	// the first attempt: the confirmation replay is repeated up to five times
 	var last string
